@@ -32,7 +32,13 @@ JudgeHeader(o) ==
 
 \* o: [line, how, pl_ok, pl_nil, p_ok, p_nil, panic]
 JudgeBadHeader(o) ==
-    IF o.panic THEN << PFlag("C05", "parser panicked on a malformed header") >>
+    IF o.panic THEN << PFlag("C05", "parser panicked on a malformed header"),
+                       PFlag("C04", "a malformed header yielded a panic, not an error (" \o o.how \o ")") >>
+    ELSE IF o.how \in {"cut", "typename"} THEN
+        \* a run of bytes cut out of the 'type=T msg=' prefix, or a type name around the UNKNOWN[n] form: what
+        \* is left may still be a header the parser takes (the statement fixes no grammar of type names); the
+        \* demand is an error and no message, or a message and no error - and no panic
+        (IF o.pl_ok = o.pl_nil THEN << PFlag("C04", "ParseLogLine returned a message together with an error, or neither") >> ELSE << >>)
     ELSE (IF o.pl_ok \/ ~o.pl_nil THEN << PFlag("C04", "ParseLogLine accepted a malformed header (" \o o.how \o ")") >> ELSE << >>)
       \o (IF o.p_ok \/ ~o.p_nil THEN << PFlag("C04", "Parse accepted a malformed header (" \o o.how \o ")") >> ELSE << >>)
 
@@ -91,7 +97,7 @@ JudgeField(o) ==
 \* ---- C05 -------------------------------------------------------------------------------------
 \* o: [ret ("ok" | "err" | "panic" | "hang"), same]
 JudgeTotal(o) ==
-    (IF o.ret \in {"panic", "hang"} THEN << PFlag("C05", "the parser did not return (" \o o.ret \o ") on " \o o.shape) >> ELSE << >>)
+    (IF o.ret \in {"panic", "hang", "crash"} THEN << PFlag("C05", "the parser did not return (" \o o.ret \o ") on " \o o.shape) >> ELSE << >>)
     \o (IF o.ret = "ok" /\ ~o.same THEN << PFlag("C05", "repeated Data/Tags/ToMapStr calls on one message disagree (" \o o.shape \o ")") >> ELSE << >>)
 
 Judge(o) ==
